@@ -176,7 +176,10 @@ class CodeGenerator(abc.ABC):
             + self.ode.intermediates
             + self.ode.state_derivatives
         )
-        if reserved := {atom.name for atom in atoms_ if self._is_reserved(atom.name)}:
+        # The missing variables (e.g. states of another sub-ODE) are assigned
+        # to local variables in the generated functions as well
+        names = {atom.name for atom in atoms_} | set(self.ode.missing_variables)
+        if reserved := {name for name in names if self._is_reserved(name)}:
             raise ReservedSymbolError(
                 reserved, reason="the generated code uses these names itself"
             )
